@@ -23,6 +23,9 @@ func indexSep(pat string) (int, int) {
 				return n - len(pat[i:]), 2
 			}
 			pat = pat[i+2:]
+		case pat[i] == '\\':
+			// a trailing backslash is not a separator
+			return -1, 0
 		default:
 			return n - len(pat[i:]), 1
 		}
